@@ -65,6 +65,20 @@ type Collector struct {
 	replays  []string
 	distinct map[string]bool
 	sigSeen  map[string]int
+	retries  []retryCase
+	capture  *Case // when set, Add stores the case here instead of counting it (see timedCases)
+}
+
+// timedCases runs a case function (one that reports exactly one case) so that a failure is repeated alone before it
+// is believed: see AddTimed
+func timedCases(col *Collector, f func(col *Collector)) {
+	run := func() Case {
+		var got Case
+		tmp := &Collector{res: &Result{Histogram: map[string]int{}}, distinct: map[string]bool{}, sigSeen: map[string]int{}, capture: &got}
+		f(tmp)
+		return got
+	}
+	col.AddTimed(run(), run)
 }
 
 func NewCollector(prop, tier string, seed int64) *Collector {
@@ -85,6 +99,10 @@ func hashKey(s string) string {
 func (c *Collector) Add(cs Case) {
 	c.mu.Lock()
 	defer c.mu.Unlock()
+	if c.capture != nil {
+		*c.capture = cs
+		return
+	}
 	r := c.res
 	r.Evaluations++
 	for _, t := range cs.Tags {
@@ -116,6 +134,43 @@ func (c *Collector) Add(cs Case) {
 		c.lines = append(c.lines, cs.Line)
 		c.impls = append(c.impls, cs.Impl)
 		c.replays = append(c.replays, replay)
+	}
+}
+
+// AddTimed is Add for cases whose verdict depends on wall-clock bounds (a run that must return within N seconds,
+// processes that must start together): on a machine that is busy enough such a bound can be missed by correct
+// code. A failing case is therefore not reported at once; it is repeated on its own after everything else
+// (DrainRetries), and reported only if it fails again - a deadlock or a serialisation shows again, a slow start
+// does not. Deterministic failures are unaffected (they fail twice).
+func (c *Collector) AddTimed(cs Case, again func() Case) {
+	if cs.Fail == "" || os.Getenv("VERIF_NO_RETRY") != "" {
+		c.Add(cs)
+		return
+	}
+	c.mu.Lock()
+	c.retries = append(c.retries, retryCase{cs, again})
+	c.mu.Unlock()
+}
+
+type retryCase struct {
+	first Case
+	again func() Case
+}
+
+func (c *Collector) DrainRetries() {
+	c.mu.Lock()
+	rs := c.retries
+	c.retries = nil
+	c.mu.Unlock()
+	for _, r := range rs {
+		cs := r.again()
+		if cs.Fail != "" {
+			cs.Fail += fmt.Sprintf(" [failed twice; first attempt: %s]", r.first.Fail)
+		} else {
+			cs.Tags = append(cs.Tags, "passed-on-second-attempt")
+			c.Note("a time-bounded case failed once (%s: %s) and passed when repeated alone: %s", r.first.Sig, r.first.Fail, r.first.Replay)
+		}
+		c.Add(cs)
 	}
 }
 
